@@ -193,6 +193,15 @@ Definition wrap_array (r : option arr_rules) (sf : option str) (w : fieldw) : fi
      (Some (XArray sf))        (* the item's (j5.ext.v1.field) is overwritten *)
      (fw_list w) (fw_key w).
 
+Definition wrap_map (r : option map_rules) (w : fieldw) : fieldw :=
+  FW (KdMapEntry (fw_kind w))
+     (if is_some (fw_val w) || is_some r
+      then only_ty (CMap (match r with Some r => mr_min r | None => None end)
+                         (match r with Some r => mr_max r | None => None end)
+                         (match fw_val w with Some c => c_ty c | None => None end))
+      else None)
+     None None (fw_key w).
+
 Definition set_required (v : option constraint) : option constraint :=
   match v with
   | Some c => Some (C true (c_ty c))
@@ -219,12 +228,13 @@ Definition write_prop (env : enum_env) (idx : N) (d : prop) : outcome fout :=
          | PSingle t => write_field env t
          | PArray r sf t => obind (write_field env t) (fun w => Ok (wrap_array r sf w))
          (* the item's annotations sit on the value field of the entry message; of
-            those only (j5.ext.v1.key) is kept here (the reader looks at it) *)
-         | PMap t => obind (write_field env t) (fun w => Ok (FW (KdMapEntry (fw_kind w)) None None None (fw_key w)))
+            those only (j5.ext.v1.key) is kept here (the reader looks at it). The
+            value constraint and the map rules go to (buf.validate.field).map *)
+         | PMap r t => obind (write_field env t) (fun w => Ok (wrap_map r w))
          end)
     (fun w =>
        let required := p_req d || match p_ty d, fw_key w with
-                                  | PMap _, _ => false      (* the map field itself has no key annotation *)
+                                  | PMap _ _, _ => false      (* the map field itself has no key annotation *)
                                   | _, Some k => kx_primary k
                                   | _, None => false
                                   end in
